@@ -3,6 +3,7 @@ CONSTANTS
   Clients <- E1Clients
   Reqs <- E1Reqs
   Bg = "bg"
+  Handoff = TRUE
   NotifyOnEof = TRUE
 INVARIANT FailOnlyWhenGone
 INVARIANT StillRight
